@@ -43,6 +43,19 @@ CHECKS = {
             "typestate/ownership lint over ast (effect summaries) + definite-initialisation and guard-implication rules on "
             "the clang JSON AST",
             "DESIGN.md section 4 C18"),
+    "C04": (True, "other",
+            "A symbolic proof, for all grid extents mk, mth >= 1, that the neighbour table built by ptnghb is exactly the "
+            "8-neighbourhood with the direction axis circular and the frequency axis clipped (each guarded store is "
+            "decomposed by exact polynomial arithmetic into a legal cell; the enabled displacement multiset is checked for "
+            "all 16 guard valuations), plus pairwise agreement of the layout facts (copy-in, copy-out, allocation order, "
+            "shape extraction, C-contiguous float32 at every Python call site) and the early-exit condition of the "
+            "watershed-line sweeps. The whole immersion walks on this table: a wrong entry splits or merges basins across "
+            "the seam.",
+            "that immersion yields exactly one label per regional maximum, basin connectivity and shift-equivariance of "
+            "tie-breaking are runtime properties of the Vincent-Soille algorithm and are NOT decided.",
+            "clang JSON AST extraction + exact symbolic (polynomial) decomposition and finite case analysis; ast idiom rule "
+            "for the call sites",
+            "DESIGN.md section 4 C04"),
 }
 
 NA_DEFAULT = "check under construction in this build round (see DESIGN.md section 8)"
